@@ -234,10 +234,13 @@ def _sim_case(draw):
 
     def random_op(target=None):
         kind = draw(st.sampled_from(["derive", "derive", "assign", "assign", "assign", "assign", "assign_std",
-                                     "solve", "solve", "solve", "solve", "steady", "steady", "alter", "alter", "tolerance"]))
+                                     "solve", "solve", "solve", "solve", "steady", "steady", "alter", "alter", "tolerance", "assign_steady"]))
         t = draw(obj) if target is None else target
         if kind == "derive":
             return [[draw(st.sampled_from(DERIVE_KINDS)), t]]
+        if kind == "assign_steady":
+            # a (level, change) pair assigned to a variable: steady changes are per object and per variant, too
+            return [["assign_steady", t, draw(st.integers(0, 2)), draw(st.sampled_from([0.5, 1.5, 2.0])), draw(st.sampled_from([0.02, -0.01, 0.05]))]]
         if kind == "tolerance":
             # values next to the default 1e-12: a setting that must travel with the object without changing any result
             return [["tolerance", t, draw(st.sampled_from([1e-12, 5e-12, 1e-11])), draw(st.sampled_from([1e-12, 2e-12, 1e-11]))]]
@@ -347,6 +350,7 @@ class _Harness:
         self.labels = set()
         self.linear = not spec["log"]
         self.flat = bool(case["flat"])
+        self.vars = list(spec["names"])
 
     def resolve(self, op):
         """Plain description of what the step does (indices resolved against the current pool)."""
@@ -365,6 +369,12 @@ class _Harness:
             return {"op": "alter", "obj": i, "k": int(op[2])}
         if name == "tolerance":
             return {"op": "tolerance", "obj": i, "values": {"eigenvalue": float(op[2]), "equality": float(op[3])}}
+        if name == "assign_steady":
+            if self.flat:
+                return {"op": "steady", "obj": i}       # flat models carry no changes (and the JSON route relies on it)
+            var = self.vars[int(op[2]) % len(self.vars)]
+            pair = (float(op[3]), (1.0 + float(op[4])) if not self.linear else float(op[4]))
+            return {"op": "assign_steady", "obj": i, "raw": {var: pair}, "per_variant": {var: [pair] * nv}}
         return {"op": name, "obj": i}
 
     def commit(self, step, k):
@@ -421,6 +431,10 @@ class _Harness:
         elif op == "tolerance":
             o.tolerance = dict(step["values"])
             self.labels.add("op_tolerance")
+        elif op == "assign_steady":
+            for vi, v in enumerate(o.variants):
+                v.hist.append(("assign", {n: vals[vi] for n, vals in step["per_variant"].items()}))
+            self.labels.add("op_assign_steady")
         elif op == "alter":
             kk = step["k"]
             if kk < len(o.variants):
@@ -712,6 +726,7 @@ def _portable_structure(m):
         "quantities": [(q.human, q.kind.name, q.logly) for q in m.get_quantities()],
         "dynamic_equations": list(m.get_dynamic_equations()),
         "steady_equations": list(m.get_steady_equations()),
+        "equations": list(m.get_equations()),
         "flags": {"is_linear": bool(m.is_linear), "is_flat": bool(m.is_flat), "is_deterministic": bool(m.is_deterministic)},
         "num_variants": int(m.num_variants),
     }
@@ -732,6 +747,8 @@ def _compare_structure(col, tag, a, b, where):
                         lambda: f"{where}: order {[n for n, _, _ in qa]} became {[n for n, _, _ in qb]}")
     ok &= col.check(a["dynamic_equations"] == b["dynamic_equations"], f"{tag}:dynamic_equations",
                     lambda: f"{where}: dynamic equations {a['dynamic_equations']} became {b['dynamic_equations']}")
+    ok &= col.check(a.get("equations") == b.get("equations"), f"{tag}:equations",
+                    lambda: f"{where}: equations {a.get('equations')} became {b.get('equations')}")
     ok &= col.check(a["steady_equations"] == b["steady_equations"], f"{tag}:steady_equations",
                     lambda: f"{where}: steady equations {a['steady_equations']} became {b['steady_equations']}")
     ok &= col.check(a["flags"] == b["flags"], f"{tag}:flags", lambda: f"{where}: flags {a['flags']} became {b['flags']}")
@@ -877,7 +894,7 @@ def _check_sim(case):
             compare_all(k, set(), last)
             continue
         m = real[i]
-        if step["op"] in ("assign", "assign_std"):
+        if step["op"] in ("assign", "assign_std", "assign_steady"):
             if step["raw"]:
                 api(f"{o.kind}:assign", lambda: m.assign(**step["raw"]))
             h.commit(step, k)
@@ -959,6 +976,8 @@ def _port_case(draw):
         "description": draw(st.sampled_from(["", "A model", "x \"quoted\" y"])),
         # declared exogenous variables [name, in logs]: kinds and log status must survive the portable form as well
         "exog": draw(st.lists(st.tuples(st.sampled_from(["zf", "tx"]), st.booleans()).map(list), max_size=2, unique_by=lambda t: t[0])),
+        # a !steady-autovalues block (a parameter computed from the steady state): one more kind of equation to carry
+        "autovalue": draw(st.sampled_from([False, False, True])),
     }
 
 
@@ -985,6 +1004,16 @@ def _port_source(case):
         if "!!" not in body:
             extra = "".join((f" * {n}^0" if spec["log"] else f" + 0*{n}") for n, _ in exog)
             lines[at + len(block) + 1] = f"    {body}{extra};"
+    if case.get("autovalue"):
+        if "!parameters" in lines:
+            k = lines.index("!parameters")
+            lines[k + 1] = lines[k + 1] + ", auto_p"
+        else:
+            at = lines.index("!transition-equations")
+            lines[at:at] = ["!parameters", "    auto_p"]
+        while lines and not lines[-1].strip():
+            lines.pop()
+        lines += ["!steady-autovalues", f"    auto_p = {spec['names'][0]}/2;", ""]
     return "\n".join(lines)
 
 
@@ -1002,6 +1031,8 @@ def _classify_port(case):
         labels.append("steady_versions")
     if case.get("exog"):
         labels.append("exogenous_variables" + ("_log" if any(lg for _, lg in case["exog"]) else ""))
+    if case.get("autovalue"):
+        labels.append("steady_autovalues_block")
     if spec["meas"]:
         labels.append("measurement_block")
     nontrivial = bool(spec["params"]) and (case["linear"] or case["flat"] or case["deterministic"] or spec["log"] or case["nv"] > 1)
@@ -1042,6 +1073,8 @@ def _check_port(case):
             assign[n] = [(a, c) for a, c in zip(lv, ch)] if nv > 1 else (lv[0], ch[0])
         else:
             assign[n] = list(lv) if nv > 1 else lv[0]
+    if case.get("autovalue"):
+        assign["auto_p"] = [0.5] * nv if nv > 1 else 0.5
     api("portable:assign", lambda: m.assign(**assign))
     try:
         p = m.to_portable()
